@@ -783,9 +783,9 @@ theorem fresh_maxNumber (reg : List Svc) : Fresh reg (startNumber reg) := by
   rw [startNumber_eq]
   exact fun s hs => Nat.lt_succ_of_le ((foldl_max_le reg 0).2 s hs)
 
-theorem addNode_spec (w : World) (fx : Fx) (count : Nat) (np mp rp : Option (Nat × Nat)) (metrics : Bool)
-    (ver : Nat) (hi : Inv w) :
-    let r := addNode w fx count np mp rp metrics ver
+theorem addNode_spec (w : World) (fx : Fx) (file : List Svc) (count : Nat) (np mp rp : Option (Nat × Nat))
+    (metrics : Bool) (ver : Nat) (hi : Inv w) :
+    let r := addNode w fx file count np mp rp metrics ver
     Inv r.1 ∧ (AllGood w → AllGood r.1) ∧ (∀ i n, RemovedAt w i n → RemovedAt r.1 i n) := by
   intro r
   unfold r addNode
@@ -797,7 +797,7 @@ theorem addNode_spec (w : World) (fx : Fx) (count : Nat) (np mp rp : Option (Nat
     · split
       · exact ⟨hi, id, fun _ _ h => h⟩
       · have := addLoop_spec count (startNumber w.reg) (np.map (·.1)) (mp.map (·.1)) (rp.map (·.1)) metrics ver
-          ⟨w, fx, [], [], false⟩ (fresh_maxNumber w.reg) hi
+          ⟨w, fx, [], [], false, file⟩ (fresh_maxNumber w.reg) hi
         split
         · exact this
         · split
@@ -909,7 +909,7 @@ theorem exec_spec (w : World) (op : Op) (hi : Inv w) :
     (∀ k n, RemovedAt w k n → RemovedAt (exec w op).1 k n) := by
   cases op with
   | add count np mp rp metrics ver faults =>
-    have := addNode_spec w ⟨faults, 0⟩ count np mp rp metrics ver hi
+    have := addNode_spec w ⟨faults, 0⟩ [] count np mp rp metrics ver hi
     simp only [exec]
     exact ⟨this.1, fun _ => this.2.1, this.2.2⟩
   | start i ct faults =>
@@ -971,5 +971,221 @@ theorem run_removedAt (w : World) (ops : List Op) (i n : Nat) (hi : Inv w) (hr :
   | cons op r ih =>
     have h := exec_spec w op hi
     exact ih _ h.1 (h.2.2 i n hr)
+
+/-! ## The registry file: where `add_node` saves, and service numbers across `reload` -/
+
+/-- One loop iteration: either nothing is recorded and the file is untouched, or one entry numbered `num` is
+recorded, its service is installed, and the file is the whole in-memory registry (saved right after the install). -/
+theorem addOne_file (num : Nat) (np mp rp : Option Nat) (metrics : Bool) (ver : Nat) (a : AddAcc) :
+    let a' := addOne num np mp rp metrics ver a
+    (a'.w.reg = a.w.reg ∧ a'.w.os.installed = a.w.os.installed ∧ a'.file = a.file) ∨
+    (∃ new os1, new.number = num ∧ a'.w.reg = a.w.reg ++ [new] ∧ os1.installed = a.w.os.installed ∧
+      a'.w.os = osInstall os1 num np ∧ a'.file = a'.w.reg) := by
+  intro a'
+  unfold a' addOne
+  have hp := addPorts_minor mp rp metrics a.w a.fx
+  split
+  · rename_i w1 fx1 heq
+    rw [heq] at hp
+    left; exact ⟨hp.1, hp.2.2, rfl⟩
+  · rename_i rpcP metP w1 fx1 heq
+    rw [heq] at hp
+    split
+    · left; exact ⟨hp.1, hp.2.2, rfl⟩
+    · right
+      exact ⟨⟨num, .added, none, np, metP, rpcP, ver⟩, mkDir w1.os num, rfl, by
+        have h1 : w1.reg = a.w.reg := hp.1
+        simp [h1], hp.2.2, rfl, rfl⟩
+
+theorem isInstalled_congr {os os' : OS} (h : os'.installed = os.installed) (n : Nat) :
+    os'.isInstalled n = os.isInstalled n := by
+  simp [OS.isInstalled, h]
+
+/-- Relation between the accumulator at loop entry (`a0`) and later (`a`): either nothing was recorded or installed
+and the file is as before, or the file is exactly the in-memory registry and every newly installed service is
+recorded in it. -/
+def FileRel (a0 a : AddAcc) : Prop :=
+  (a.w.reg = a0.w.reg ∧ a.file = a0.file ∧ ∀ n, a.w.os.isInstalled n = a0.w.os.isInstalled n) ∨
+  (a.file = a.w.reg ∧ ∀ n, a.w.os.isInstalled n = true → a0.w.os.isInstalled n = true ∨ ∃ s ∈ a.w.reg, s.number = n)
+
+theorem addOne_fileRel (num : Nat) (np mp rp : Option Nat) (metrics : Bool) (ver : Nat) (a0 a : AddAcc)
+    (h : FileRel a0 a) : FileRel a0 (addOne num np mp rp metrics ver a) := by
+  rcases addOne_file num np mp rp metrics ver a with ⟨hr, hi, hf⟩ | ⟨new, os1, hn, hr, hi1, hos, hf⟩
+  · have hinst := isInstalled_congr hi
+    rcases h with ⟨h1, h2, h3⟩ | ⟨h1, h2⟩
+    · left; exact ⟨hr.trans h1, hf.trans h2, fun n => (hinst n).trans (h3 n)⟩
+    · right
+      refine ⟨by rw [hf, hr]; exact h1, ?_⟩
+      intro n hn'
+      rw [hinst n] at hn'
+      rcases h2 n hn' with h | ⟨s, hs, hsn⟩
+      · exact Or.inl h
+      · exact Or.inr ⟨s, by rw [hr]; exact hs, hsn⟩
+  · right
+    refine ⟨hf, ?_⟩
+    intro n hn'
+    rw [hos] at hn'
+    by_cases hnn : n = num
+    · exact Or.inr ⟨new, by rw [hr]; simp, hn.trans hnn.symm⟩
+    · have := (osInstall_spec os1 num np).1.inst n hnn
+      rw [this, isInstalled_congr hi1 n] at hn'
+      rcases h with ⟨h1, _, h3⟩ | ⟨_, h2⟩
+      · rw [h3 n] at hn'; exact Or.inl hn'
+      · rcases h2 n hn' with h | ⟨s, hs, hsn⟩
+        · exact Or.inl h
+        · exact Or.inr ⟨s, by rw [hr]; exact List.mem_append_left _ hs, hsn⟩
+
+theorem addLoop_fileRel (k num : Nat) (np mp rp : Option Nat) (metrics : Bool) (ver : Nat) (a0 a : AddAcc)
+    (h : FileRel a0 a) : FileRel a0 (addLoop k num np mp rp metrics ver a) := by
+  induction k generalizing num np mp rp a with
+  | zero => exact h
+  | succ k ih =>
+    have h1 := addOne_fileRel num np mp rp metrics ver a0 a h
+    unfold addLoop
+    dsimp only
+    split
+    · exact h1
+    · exact ih _ _ _ _ _ h1
+
+/-- Numbers only (no assumption on the rest of the state): the loop appends fresh, pairwise distinct numbers. -/
+theorem addLoop_numbers (k num : Nat) (np mp rp : Option Nat) (metrics : Bool) (ver : Nat) (a : AddAcc)
+    (hf : Fresh a.w.reg num) (hn : (a.w.reg.map (·.number)).Nodup) :
+    ((addLoop k num np mp rp metrics ver a).w.reg.map (·.number)).Nodup ∧
+    (a.w.reg.map (·.number)) <+: ((addLoop k num np mp rp metrics ver a).w.reg.map (·.number)) := by
+  induction k generalizing num np mp rp a with
+  | zero => exact ⟨hn, List.prefix_refl _⟩
+  | succ k ih =>
+    have h1 : Fresh (addOne num np mp rp metrics ver a).w.reg (num + 1) ∧
+        ((addOne num np mp rp metrics ver a).w.reg.map (·.number)).Nodup ∧
+        (a.w.reg.map (·.number)) <+: ((addOne num np mp rp metrics ver a).w.reg.map (·.number)) := by
+      rcases addOne_cases num np mp rp metrics ver a with ⟨hr, _⟩ | ⟨new, _, hnum, _, _, hr, _, _⟩
+      · have hr' : (addOne num np mp rp metrics ver a).w.reg = a.w.reg := hr
+        rw [hr']
+        exact ⟨fun s hs => Nat.lt_succ_of_lt (hf s hs), hn, List.prefix_refl _⟩
+      · have hr' : (addOne num np mp rp metrics ver a).w.reg = a.w.reg ++ [new] := hr
+        rw [hr']
+        refine ⟨?_, ?_, ?_⟩
+        · intro s hs
+          simp only [List.mem_append, List.mem_singleton] at hs
+          rcases hs with hs | rfl
+          · exact Nat.lt_succ_of_lt (hf s hs)
+          · rw [hnum]; exact Nat.lt_succ_self _
+        · rw [List.map_append, List.nodup_append]
+          refine ⟨hn, by simp, ?_⟩
+          intro x hx y hy
+          simp only [List.map_cons, List.map_nil, List.mem_singleton] at hy
+          obtain ⟨s, hs, rfl⟩ := List.mem_map.mp hx
+          rw [hy, hnum]
+          exact Nat.ne_of_lt (hf s hs)
+        · rw [List.map_append]; exact List.prefix_append _ _
+    unfold addLoop
+    dsimp only
+    split
+    · exact ⟨h1.2.1, h1.2.2⟩
+    · obtain ⟨g1, g2⟩ := ih (num + 1) (np.map (· + 1)) (mp.map (· + 1)) (rp.map (· + 1)) _ h1.1 h1.2.1
+      exact ⟨g1, h1.2.2.trans g2⟩
+
+/-! ## Only `add_node` creates service definitions for new numbers -/
+
+/-- Every service definition present afterwards was present before. -/
+def InstSub (os os' : OS) : Prop := ∀ m, os'.isInstalled m = true → os.isInstalled m = true
+
+theorem InstSub.refl (os : OS) : InstSub os os := fun _ h => h
+theorem InstSub.trans {a b c : OS} (h1 : InstSub a b) (h2 : InstSub b c) : InstSub a c := fun m h => h1 m (h2 m h)
+theorem InstSub.of_eq {os os' : OS} (h : os'.installed = os.installed) : InstSub os os' :=
+  fun m hm => by rw [isInstalled_congr h m] at hm; exact hm
+
+theorem svcStart_instSub (s : Svc) (os : OS) (fx : Fx) (ct : Bool) : InstSub os (svcStart s os fx ct).2.1 := by
+  rcases svcStart_cases s os fx ct with ⟨_, h2, _⟩ | ⟨_, _, h3⟩ | ⟨_, hs, _⟩
+  · rw [h2]; exact InstSub.refl _
+  · rcases h3 with h3 | h3
+    · rw [h3]; exact InstSub.refl _
+    · exact InstSub.of_eq (osStart_spec h3).2.1
+  · exact InstSub.of_eq (osStart_spec hs).2.1
+
+theorem svcStop_instSub (s : Svc) (os : OS) (fx : Fx) : InstSub os (svcStop s os fx).2.1 := by
+  rcases svcStop_cases s os fx with ⟨_, h2, _⟩ | ⟨_, _, _, h3⟩
+  · rw [h2]; exact InstSub.refl _
+  · rcases h3 with ⟨h3, _⟩ | h3
+    · rw [h3]; exact InstSub.refl _
+    · exact InstSub.of_eq (osStop_spec h3).2.1
+
+theorem instSub_of_frame_false {n : Nat} {os os' : OS} (hf : Frame n os os') (hi : os'.isInstalled n = false) :
+    InstSub os os' := by
+  intro m hm
+  by_cases hmn : m = n
+  · subst hmn; rw [hi] at hm; cases hm
+  · rw [hf.inst m hmn] at hm; exact hm
+
+theorem svcRemove_instSub (s : Svc) (os : OS) (fx : Fx) (keep : Bool) : InstSub os (svcRemove s os fx keep).2.1 := by
+  rcases svcRemove_cases s os fx keep with ⟨_, _, h2⟩ | ⟨_, _, _, _, h2⟩ | ⟨_, _, _, _, hf, hi⟩
+  · rw [h2]; exact InstSub.refl _
+  · rw [h2]; exact InstSub.refl _
+  · exact instSub_of_frame_false hf hi
+
+theorem svcStop_number (s : Svc) (os : OS) (fx : Fx) : (svcStop s os fx).1.number = s.number :=
+  (svcStop_trans s os fx).num
+
+theorem svcUpgrade_instSub (s : Svc) (os : OS) (fx : Fx) (force start : Bool) (ver : Nat) (ct : Bool) :
+    InstSub os (svcUpgrade s os fx force start ver ct).2.1 := by
+  unfold svcUpgrade
+  split
+  · exact InstSub.refl _
+  · have T1 := svcStop_instSub s os fx
+    split
+    rename_i s1 os1 fx1 r1 heq
+    rw [heq] at T1
+    simp only at T1
+    split
+    · exact T1
+    · split
+      · exact T1
+      · split
+        split
+        · exact T1
+        · split
+          · exact T1
+          · rename_i os2 hu
+            obtain ⟨hf2, _, _, hi2⟩ := osUninstall_spec hu
+            have hinst := osUninstall_some_installed hu
+            have T2 : InstSub os1 os2 := instSub_of_frame_false hf2 hi2
+            split
+            split
+            · exact T1.trans T2
+            · obtain ⟨hf3, _, _, _⟩ := osInstall_spec os2 s1.number s1.nodePort
+              have T3 : InstSub os1 (osInstall os2 s1.number s1.nodePort) := by
+                intro m hm
+                by_cases hmn : m = s1.number
+                · subst hmn; exact hinst
+                · rw [hf3.inst m hmn, hf2.inst m hmn] at hm; exact hm
+              split
+              · have T4 := svcStart_instSub s1 (osInstall os2 s1.number s1.nodePort) ‹Fx› ct
+                dsimp only
+                split
+                · exact (T1.trans T3).trans T4
+                · exact (T1.trans T3).trans T4
+              · exact T1.trans T3
+
+theorem onSvc_instSub (w : World) (i : Nat) (faults : List Bool) (f : Svc → OS → Fx → Svc × OS × Fx × Res)
+    (hT : ∀ s os fx, InstSub os (f s os fx).2.1) : InstSub w.os (onSvc w i faults f).1.os := by
+  unfold onSvc
+  split
+  · exact InstSub.refl _
+  · exact hT _ _ _
+
+/-- No operation other than `add` creates a service definition that was not there before. -/
+theorem exec_instSub (w : World) (op : Op) (hna : ∀ c np mp rp m v f, op ≠ .add c np mp rp m v f) :
+    InstSub w.os (exec w op).1.os := by
+  cases op with
+  | add c np mp rp m v f => exact absurd rfl (hna c np mp rp m v f)
+  | start i ct faults => exact onSvc_instSub w i faults _ (fun s os fx => svcStart_instSub s os fx ct)
+  | stop i faults => exact onSvc_instSub w i faults _ svcStop_instSub
+  | remove i keep faults => exact onSvc_instSub w i faults _ (fun s os fx => svcRemove_instSub s os fx keep)
+  | upgrade i force start ver ct faults =>
+    exact onSvc_instSub w i faults _ (fun s os fx => svcUpgrade_instSub s os fx force start ver ct)
+  | refresh => exact InstSub.refl _
+  | kill i => simp only [exec]; split <;> exact InstSub.refl _
+  | flaky i on => simp only [exec]; split <;> exact InstSub.refl _
+  | saveload => simp only [exec, decode_encode]; exact InstSub.refl _
 
 end SafeNet.Lifecycle
